@@ -184,7 +184,13 @@ type Pipeline interface {
 	// Subscribe subscribes a recorder. wrapped selects an observer made with
 	// ro.NewObserverWithContext instead of the hand-written raw observer.
 	Subscribe(ctx context.Context, r *rec.Rec, wrapped bool) ro.Subscription
+	// Counted appends a library operator with unsynchronised per-subscription state (Count) to
+	// the pipeline, whatever its element type: if the pipeline delivers from two goroutines at
+	// once, the conflicting accesses are in library memory (C13).
+	Counted() Pipeline
 }
+
+func (p pipe[T]) Counted() Pipeline { return P(ro.Count[T]()(p.obs)) }
 
 type pipe[T any] struct{ obs ro.Observable[T] }
 
